@@ -97,6 +97,10 @@ func runC09(res *Result, d *Driver, g *Rng, tier string) {
 	contents := []string{"hello world", strings.Repeat("a", 160), strings.Repeat("a", 161), strings.Repeat("b", 140) + "[", strings.Repeat("x", 152) + "[" + strings.Repeat("y", 30),
 		"héllo wörld", strings.Repeat("é", 150), "中文短信", strings.Repeat("中", 70), strings.Repeat("中", 71), "emoji \U0001F600", strings.Repeat("a", 66) + "\U0001F600" + strings.Repeat("b", 10),
 		"Δabc@£", strings.Repeat("€", 81), "a", strings.Repeat("z", 306), strings.Repeat("中a", 60),
+		// a surrogate pair that ends exactly at a part boundary of UCS-2 (units 66 and 67), with and without a tie
+		// against GBK in the number of parts
+		strings.Repeat("c", 65) + "\U0001F600" + strings.Repeat("d", 67), strings.Repeat("中", 10) + strings.Repeat("e", 55) + "\U0001F600" + strings.Repeat("f", 67),
+		strings.Repeat("g", 65) + "\U0001F600" + strings.Repeat("h", 65) + "\U0001F600" + strings.Repeat("i", 30),
 		// around the 255-part limit of each coding: a candidate that would need 256 parts is not usable
 		strings.Repeat("a", 17085), strings.Repeat("a", 17086), strings.Repeat("a", 20000), strings.Repeat("a", 34170), strings.Repeat("a", 34171),
 		strings.Repeat("a", 39015), strings.Repeat("a", 39016), strings.Repeat("a", 40000), strings.Repeat("中", 17085), strings.Repeat("中", 17086), strings.Repeat("é", 34171)}
@@ -200,6 +204,10 @@ func runC09(res *Result, d *Driver, g *Rng, tier string) {
 						rp := []string{op, fmt.Sprintf("build %s cands=%v origin=%d/%v content=%s", proto, sh, or.n, or.has, cpsOf(content))}
 						if out.secondDiffers {
 							res.Violate("C09.not-deterministic:"+proto, "Build called a second time on the same builder gives another result", rp)
+							break
+						}
+						if got == want && best >= 0 && !out.isErr && len(out.parts) != bestParts {
+							res.Violate("C09.not-cheapest:"+proto, fmt.Sprintf("coding %d was picked with %d parts; filling each part as far as whole characters allow it needs %d (the count the choice rests on)", out.coding, len(out.parts), bestParts), rp)
 							break
 						}
 						if got != want {
